@@ -13,6 +13,7 @@ FLT_MAX_BITS = "7f7fffff"
 F_NEGSCALE = "negscale_exact_extreme"        # exact physical value at a range end rejected when scale < 0 (inexact pow(10,scale))
 F_F32 = "f32_extra_roundings"                # single-precision path loses raw values a binary32 can carry (float val_pow)
 F_WRAP = "negscale_negref_fmax_wrap"          # scale<0 and reference < -(2^w-2): fmax wraps in uint64, no post-check: value above range -> raw >= 2^w
+F_F32NEG = "f32_negscale_exact_extreme"     # single-precision twin of F_NEGSCALE: bufr_cvt_fval_to_i32 limits from x / pow(10,scale), scale < 0
 F_SPRINTF = "set_dvalue_sprintf_overflow"    # bufr_descriptor_set_dvalue: sprintf("%f") of a huge out-of-range value overflows errmsg[256]
 
 
@@ -183,6 +184,28 @@ def synthetic_encodings(rng, n):
     return out
 
 
+def f32_tie_encodings():
+    """negative-scale encodings whose extreme physical value lies exactly midway between two binary32 (so that the float
+    nearest to the exact value and the float of a value one double-ulp below it differ): the inputs that expose limits
+    computed from the inexact pow(10,scale) in the single-precision functions"""
+    out = []
+    for s in range(-10, 0):
+        for w in range(2, 25):
+            for ref in (0, -(1 << (w - 1)), -1000):
+                if not f32_domain(s, ref, w):
+                    continue
+                for i in ((1 << w) - 2, 0):
+                    q = phys(s, ref, i)
+                    if q == 0:
+                        continue
+                    lo = rn(q * (1 - Fraction(1, 1 << 52)), 24, 128)
+                    hi = rn(q * (1 + Fraction(1, 1 << 52)), 24, 128)
+                    if lo != hi:
+                        out.append((s, ref, w, 12101))
+                        break
+    return out
+
+
 def raw_picks(rng, s, ref, w, n_rand):
     """raw values aimed at the case splits of the encoder: ends, the sign change of i+ref, multiples of 10^s, the
     delta<reference switch (i+ref around 2^w-1), powers of two, random; always in adjacent pairs"""
@@ -340,6 +363,8 @@ def build_phase2(rng, tier, r_results):
                 fb = rn_float_bits(q)
                 if fb is not None and fb != FLT_MAX_BITS and spec_quant(s, ref, w, Fraction(f_of_bits(fb))) == i:
                     cls = None if f32_guaranteed(s, ref, w) and 0 <= s <= 10 else F_F32     # float val_pow is inexact outside 0..10
+                    if s < 0 and (i == top or i == 0):
+                        cls = F_F32NEG      # the float nearest to the exact end of the range vs limits from the inexact 10^scale
                     lines.append("F %s %s" % (enc_str(e), fb)); meta.append(("F", e, "exact", i, cls))
         # outside the representable range: at least half a unit beyond the extremes, the value of the all-ones pattern, far away
         outs = [phys(s, ref, -1), phys(s, ref, 0) - unit * Fraction(6, 10), phys(s, ref, top) + unit * Fraction(6, 10),
@@ -403,10 +428,10 @@ def run(rep, tier, seed, replay=None):
             r.update(extra)
         rep.violation(text, r, no_input=no_input)
 
-    variant = [0, 0]       # fx_neg, fx_f32 of ScalImpl.v: which variant of the code the tree implements (probed below)
+    variant = [0, 0, 0]    # fx_neg, fx_f32, fx_f32n of ScalImpl.v: which variant of the code the tree implements (probed below)
 
     def run_model(lines, powtab, var):
-        mtext = "V %d %d\n" % tuple(var) + "".join("T %d %s\n" % kv for kv in sorted(powtab.items())) + "\n".join(lines) + "\n"
+        mtext = "V %d %d %d\n" % tuple(var) + "".join("T %d %s\n" % kv for kv in sorted(powtab.items())) + "\n".join(lines) + "\n"
         rc2, mout, merr = vlib.sh([drv], input=mtext.encode(), timeout=1800)
         if rc2 != 0:
             raise RuntimeError("model driver failed: " + merr[-2000:])
@@ -418,18 +443,19 @@ def run(rep, tier, seed, replay=None):
         pn = ["D -5 0 15 2067 41e8699e58000000", "R -5 0 15 2067 32766", "R -3 -65536 17 14001 7", "X -5 -16384 15 14192 c1d86a0000000000",
               "R -11 0 28 1001 99999", "D -1 -1000 8 1001 c0c3880000000000"]
         pf = ["R 8 -100000 23 15037 8388606", "R 12 -8388607 3 1001 3", "R -10 -8388606 23 1001 255", "R 5 -8388607 23 31001 65536",
-              "R 11 5 20 1001 77777", "R -2 3 16 1001 4097"]
+              "R 11 5 20 1001 77777", "R -2 3 16 1001 4097", "F -5 0 14 33007 4ec349e6", "F -3 -65536 17 14001 cc7a0000",
+              "F -5 0 14 33007 4ec349e5", "R -5 0 14 33007 16382"]
         rc, cn, _ = vlib.run_cases(exe, "\n".join(pn + pf) + "\n")
-        for var in ([0, 0], [1, 1], [1, 0], [0, 1]):
+        for var in ([1, 1, 1], [1, 1, 0], [0, 0, 0], [1, 0, 0], [0, 1, 0], [0, 1, 1]):
             mo = run_model(pn + pf, powtab, var)
             if all(c.split()[:4] == m.split()[:4] for c, m in zip(cn, mo)):
-                variant[0], variant[1] = var
+                variant[:] = var
                 return
 
     def run_both(lines, powtab):
         text = "\n".join(lines) + "\n"
         rc, cout, cerr = vlib.run_cases(exe, text, timeout=1800)
-        mtext = "V %d %d\n" % tuple(variant) + "".join("T %d %s\n" % kv for kv in sorted(powtab.items())) + text
+        mtext = "V %d %d %d\n" % tuple(variant) + "".join("T %d %s\n" % kv for kv in sorted(powtab.items())) + text
         rc2, mout, merr = vlib.sh([drv], input=mtext.encode(), timeout=1800)
         if rc2 != 0:
             raise RuntimeError("model driver failed: " + merr[-2000:])
@@ -460,7 +486,7 @@ def run(rep, tier, seed, replay=None):
         return
 
     encs_ship, nent, nwide = shipped_encodings(vlib.REPO)
-    encs_syn = synthetic_encodings(rng, 700 if tier == "quick" else 6000)
+    encs_syn = synthetic_encodings(rng, 700 if tier == "quick" else 6000) + f32_tie_encodings()
     dist["table_entries_numeric"] = nent
     dist["table_entries_wider_than_32_bits_skipped"] = nwide
     dist["distinct_shipped_encodings"] = len(encs_ship)
@@ -502,6 +528,7 @@ def run(rep, tier, seed, replay=None):
     probe_variant(powtab)
     dist["model_variant_fx_neg"] = variant[0]
     dist["model_variant_fx_f32"] = variant[1]
+    dist["model_variant_fx_f32n"] = variant[2]
     cout, cerr, mout = run_both(lines, powtab)
     if died(cout, cerr, lines, len(lines)):
         finish(rep, dist, proved)
